@@ -319,6 +319,22 @@ func gen(tier, prop string, out *vlib.Out) {
 			out.Line("new idlesub prop=C10 id=0 %s iters=%d patience=100 seed=%d", cfg, iters, rd.Intn(1000000))
 		}
 	}
+	if prop == "C10" {
+		trials := 500
+		if tier == "thorough" {
+			trials = 5000
+		}
+		for _, cfg := range []string{
+			"init=1 q=9 core=2 max=8 rate=- idle=0 ord=cmr gated=8 small=1 mode=pre",
+			"init=1 q=8 core=2 max=6 rate=- idle=0 ord=cmr gated=6 small=2 mode=pre",
+			"init=1 q=6 core=2 max=4 rate=- idle=0 ord=cmr gated=4 small=1 mode=pre",
+			"init=2 q=10 core=3 max=8 rate=- idle=0 ord=cmr gated=8 small=2 mode=pre",
+			"init=1 q=12 core=2 max=8 rate=0 idle=0 ord=cmr gated=8 small=1 mode=post",
+			"init=1 q=5 core=2 max=3 rate=- idle=0 ord=cmr gated=3 small=1 mode=pre",
+		} {
+			out.Line("new gburst prop=C10 id=0 %s trials=%d patience=3000 seed=%d", cfg, trials, rd.Intn(1000000))
+		}
+	}
 	if prop == "C12" {
 		rounds := 60
 		if tier == "thorough" {
